@@ -367,6 +367,10 @@ def r7(ctx):
     ok = True
     for x in bodies:
         for t in x.calls(r'str::chars$|str::char_indices$|str::len$|str::bytes$|Chars.*::count$|str::encode_utf16$'):
+            if (t.callee_res() or '').endswith('str::len'):
+                from rules.common import length_consumers
+                if not length_consumers(x, t):
+                    continue   # only a capacity hint
             ok = False
             ctx.fail(x, 'raw-length|' + (t.callee_res() or '').rsplit('::', 1)[-1], 'edit_word uses `%s` (line %d): a length in code points / bytes, while positions and the exclusion set '
                      'are indexed in Characters (graphemes when use_graphemes is set)' % ((t.callee_res() or ''), t.span['line']), t.span)
